@@ -223,6 +223,43 @@ func init() {
 			}, nil
 		}
 	}
+	// every text of the full alphabets (texts that look like names, URLs, encoded claim entries) in the text claims
+	Scenarios["c03.text-contents"] = func() (choice.Scenario, func() any) {
+		return func(c *choice.Ctx) {
+			kind := c.Choose("profile", 3)
+			a := genValidOpt(&choice.Ctx{}, kind, false, true)
+			all := append(append([]string{}, vsiClasses...), textClasses...)
+			if v := c.Choose("vsi", 1+len(all)); v > 0 {
+				a.VSI = sp(all[v-1])
+			}
+			if len(a.Comps) > 0 {
+				if v := c.Choose("component-text", 1+len(all)); v > 0 {
+					t := sp(all[v-1])
+					switch c.Choose("member", 3) {
+					case 0:
+						a.Comps[0].MType = t
+					case 1:
+						a.Comps[0].Version = t
+					case 2:
+						a.Comps[0].MDesc = t
+					}
+				}
+			}
+			if !a.Valid() {
+				return
+			}
+			x, err := buildBySetters(a)
+			if err == errNotRepresentable {
+				x, err = realise(a)
+			}
+			if err != nil {
+				c.Failf("C03:build:"+kindNames[kind], "cannot build: %v\n%s", err, a.String())
+				return
+			}
+			c03stats.StateStr("texts" + a.String())
+			c03Eval(c, c03stats, a, x, kind, "ES256", fixtures.Get("ES256", 1), c.Choose("entry", 2) == 0, 0)
+		}, nil
+	}
 	// what one Evidence signed / decoded stays what it was while another Evidence signs (single goroutine, run first)
 	Scenarios["c03.two-evidences"] = func() (choice.Scenario, func() any) {
 		return func(c *choice.Ctx) {
@@ -434,6 +471,7 @@ func init() {
 			b = 4
 		}
 		exploreChoiceOpts(r, "c03.two-evidences", 2, dl, 1)
+		exploreChoice(r, "c03.text-contents", -1, dl)
 		exploreChoice(r, "c03.many-components", -1, dl)
 		exploreChoice(r, "c03.rsa-key-sizes", -1, dl)
 		exploreChoiceOpts(r, "c03.derived-profiles", -1, dl, 1)
